@@ -1,4 +1,4 @@
-import TwistedProps.C15.Stream
+import TwistedProps.C15.Base0
 /-!
 C15 lemmas — the protocol's configuration (IHalfCloseableProtocol or not, what readConnectionLost does) is never
 changed by the transport.
@@ -54,25 +54,25 @@ theorem cfg_disconnectSelectable (hc : Bool) (orl : List AppOp) (v : View) (w : 
   · exact cfg_connLost hc orl _ _ h
 
 theorem cfg_doRead (hc : Bool) (orl : List AppOp) (p : Params) (v : View) (n : Nat) (h : CfgIs hc orl v) :
-    CfgIs hc orl (doRead p v n).2 := by
+    CfgIs hc orl (doRead0 p v n).2 := by
   obtain ⟨h1, h2⟩ := h
   by_cases ha : v.c.aborting = true
-  · simp [doRead, ha, CfgIs, h1, h2]
+  · simp [doRead0, ha, CfgIs, h1, h2]
   by_cases hn : n = 0
-  · simp [doRead, kRecv, ha, hn, CfgIs, h1, h2]
+  · simp [doRead0, kRecv, ha, hn, CfgIs, h1, h2]
   by_cases hq : v.k.inq.isEmpty = true
   · by_cases hr : v.k.inRst = true
-    · simp [doRead, kRecv, ha, hn, hq, hr, CfgIs, h1, h2]
+    · simp [doRead0, kRecv, ha, hn, hq, hr, CfgIs, h1, h2]
     · by_cases hf : v.k.inFin = true
-      · simp [doRead, kRecv, ha, hn, hq, hr, hf, CfgIs, h1, h2]
-      · simp [doRead, kRecv, ha, hn, hq, hr, hf, CfgIs, h1, h2]
-  · simp [doRead, kRecv, ha, hn, hq, CfgIs, h1, h2]
+      · simp [doRead0, kRecv, ha, hn, hq, hr, hf, CfgIs, h1, h2]
+      · simp [doRead0, kRecv, ha, hn, hq, hr, hf, CfgIs, h1, h2]
+  · simp [doRead0, kRecv, ha, hn, hq, CfgIs, h1, h2]
 
 theorem cfg_doWrite (hc : Bool) (orl : List AppOp) (p : Params) (v : View) (n : Nat) (h : CfgIs hc orl v) :
-    CfgIs hc orl (doWrite p v n).2 := by
+    CfgIs hc orl (doWrite0 p v n).2 := by
   have hm : CfgIs hc orl { v with c := mergeBuf p v.c } := by
     unfold mergeBuf; split <;> exact h
-  unfold doWrite
+  unfold doWrite0
   split
   · exact h
   · dsimp only
@@ -85,8 +85,8 @@ theorem cfg_doWrite (hc : Bool) (orl : List AppOp) (p : Params) (v : View) (n : 
     cases r with
     | none => exact hv'
     | some l =>
-      show CfgIs hc orl (afterSend v' _ l).2
-      unfold afterSend
+      show CfgIs hc orl (afterSend0 v' _ l).2
+      unfold afterSend0
       dsimp only
       split
       · split
@@ -97,8 +97,8 @@ theorem cfg_doWrite (hc : Bool) (orl : List AppOp) (p : Params) (v : View) (n : 
       · exact hv'
 
 theorem cfg_io (hc : Bool) (orl : List AppOp) (p : Params) (v : View) (i o h : Bool) (nr nw : Nat)
-    (hv : CfgIs hc orl v) : CfgIs hc orl (io p v i o h nr nw) :=
-  io_preserves (CfgIs hc orl) p (fun v n => cfg_doRead hc orl p v n) (fun v n => cfg_doWrite hc orl p v n)
+    (hv : CfgIs hc orl v) : CfgIs hc orl (io0 p v i o h nr nw) :=
+  io0_preserves (CfgIs hc orl) p (fun v n => cfg_doRead hc orl p v n) (fun v n => cfg_doWrite hc orl p v n)
     (fun v w r => cfg_disconnectSelectable hc orl v w r) v i o h nr nw hv
 
 /-- both protocols' configuration, read off the system -/
@@ -106,7 +106,7 @@ def SysCfg (ha hb : Bool) (ra rb : List AppOp) (s : Sys) : Prop :=
   CfgIs ha ra (s.view .A) ∧ CfgIs hb rb (s.view .B)
 
 theorem sysCfg_step (ha hb : Bool) (ra rb : List AppOp) (s : Sys) (ev : Ev) (h : SysCfg ha hb ra rb s) :
-    SysCfg ha hb ra rb (step s ev) := by
+    SysCfg ha hb ra rb (step0 s ev) := by
   cases ev with
   | app e op =>
     cases e
@@ -122,7 +122,7 @@ theorem sysCfg_step (ha hb : Bool) (ra rb : List AppOp) (s : Sys) (ev : Ev) (h :
     · exact ⟨h.1, cfg_timer hb rb _ h.2⟩
 
 theorem sysCfg_run (ha hb : Bool) (ra rb : List AppOp) (evs : List Ev) (s : Sys) (h : SysCfg ha hb ra rb s) :
-    SysCfg ha hb ra rb (run s evs) := by
+    SysCfg ha hb ra rb (run0 s evs) := by
   induction evs generalizing s with
   | nil => exact h
   | cons ev evs ih => exact ih _ (sysCfg_step ha hb ra rb s ev h)
